@@ -201,9 +201,26 @@ pub struct ForkWatch {
     pub switched: Option<(usize, u64)>,
     pub rebased_start: bool,
     pub reorg_section_requested: bool,
+    /// C09: sample what get_scripts / get_transactions report *inside* a round, right after a BlockFilters message was
+    /// handled while matched blocks are still waiting for their download (a round boundary never shows that state)
+    pub sample_reported: bool,
+    pub sample_tick: u64,
+    pub snapshots: Vec<Vec<(ckb_types::packed::Script, ST, u64, Vec<super::super::refidx::TxRec>)>>,
 }
 
 impl super::super::world::Hook for ForkWatch {
+    fn after_deliver(&mut self, w: &mut World, _pi: usize, m: &super::super::world::Resp, _o: &super::super::world::Outcome) {
+        if !self.sample_reported || m.proto != super::super::net::P::Filter || w.client.is_none() || w.dead || self.snapshots.len() >= 6 {
+            return;
+        }
+        self.sample_tick = self.sample_tick.wrapping_mul(6364136223846793005).wrapping_add(1442695040888963407);
+        if (self.sample_tick >> 33) % 3 != 0 || !w.matched_pending() {
+            return;
+        }
+        let rpc = w.c().rpc_filter();
+        let snap = get_scripts(w).into_iter().map(|(s, st, n)| { let txs = super::super::refidx::rpc_txs(&rpc, &s, st, 50); (s, st, n, txs) }).collect();
+        self.snapshots.push(snap);
+    }
     fn on_sent(&mut self, w: &mut World, sent: &super::super::net::Sent) {
         let (main, at) = match self.switched {
             Some(x) => x,
